@@ -125,6 +125,10 @@ func asInt64(x value) int64 {
 		return int64(x)
 	case uintptr:
 		return int64(x)
+	case symv:
+		// a position that must be concrete: fork over the feasible values
+		v := curPC.concretize(x.t)
+		return asInt64(fromConst(x.kind, v))
 	}
 	panic(fmt.Sprintf("cannot convert %T to int64", x))
 }
@@ -145,6 +149,9 @@ func asUint64(x value) uint64 {
 		return x
 	case uintptr:
 		return uint64(x)
+	case symv:
+		v := curPC.concretize(x.t)
+		return asUint64(fromConst(x.kind, v))
 	}
 	panic(fmt.Sprintf("cannot convert %T to uint64", x))
 }
